@@ -36,7 +36,6 @@ import (
 	"github.com/nuts-foundation/nuts-node/core"
 	nutsCrypto "github.com/nuts-foundation/nuts-node/crypto"
 	"github.com/nuts-foundation/nuts-node/jsonld"
-	"github.com/nuts-foundation/nuts-node/test/node"
 	"github.com/nuts-foundation/nuts-node/vcr/signature"
 	"github.com/nuts-foundation/nuts-node/vcr/signature/proof"
 	"github.com/piprate/json-gold/ld"
@@ -151,7 +150,7 @@ func c03StartNode(t *testing.T) *c03Node {
 	})
 	n.captures = append(n.captures, &c03Capture{label: "stdout", path: outPath})
 	// 2. the node
-	n.internal, n.public, n.system = node.StartServer(t, func(_, _ string) {
+	n.internal, n.public, n.system = vnStartServer(t, func(_, _ string) {
 		n.datadir = os.Getenv("NUTS_DATADIR")
 		pol := filepath.Join(n.datadir, "policy")
 		_ = os.MkdirAll(pol, 0o755)
